@@ -195,7 +195,12 @@ pub fn system_files(limit: usize, tr: &mut Trace) {
 /// memory vs file for every file-backed offset-0 mapping of a live target
 pub fn live_mappings(workdir: &str, tr: &mut Trace) {
     use minidump_writer::ptrace_dumper::PtraceDumper;
-    let Ok(t) = TargetProc::spawn(&json!({"threads": []}), workdir, "elf") else { return };
+    // besides the target's own (position-independent) modules: an image linked and mapped at a fixed address, where
+    // virtual addresses are not offsets from the start of the module
+    let fixed = format!("{workdir}/fixed_{}.elf", std::process::id());
+    let img = elfgen::build(&Spec { vshift: 0x40_0000, soname: None, id_ph: (50..70).collect(), ..Default::default() });
+    let _ = std::fs::write(&fixed, &img.bytes);
+    let Ok(t) = TargetProc::spawn(&json!({"threads": [], "file_maps": [{"path": fixed, "off": 0, "len": img.bytes.len(), "exec": true, "fixed": 0x40_0000}]}), workdir, "elf") else { return };
     let Ok(mut d) = PtraceDumper::new_report_soft_errors(t.pid, std::time::Duration::from_secs(2), Default::default(), error_graph::strategy::DontCare) else { return };
     d.suspend_threads(error_graph::strategy::DontCare);
     for m in d.mappings.clone() {
@@ -212,4 +217,5 @@ pub fn live_mappings(workdir: &str, tr: &mut Trace) {
                        "soSame": so_mem.ok().flatten() == so_file.ok().flatten()}));
     }
     d.resume_threads(error_graph::strategy::DontCare);
+    let _ = std::fs::remove_file(&fixed);
 }
